@@ -36,3 +36,25 @@ PROPS["C09"] = dict(
     assumptions=["callers respect merge's assert!(start < end) (the receiver only calls it with non-empty data)"],
     unproved=[],
 )
+
+PROPS["C14"] = dict(
+    title="The file checksum is the CCSDS modular checksum, however the data is read",
+    module="Cfdp.Props.C14",
+    namespace="Cfdp.Cksum",
+    theorems=["C14_chunking", "C14_chunking_general", "C14_null", "C14_agree", "C14_single_byte", "C14_neutral_exists"],
+    engines=["cksum"],
+    design="§6 C14",
+    technique="Lean 4 proof (loop invariant over arbitrary chunkings) + differential correspondence with FileChecksum::checksum under prescribed short reads",
+    level_text=("Kernel-checked theorems over the Lean model of the checksum loop: for every list of non-empty reads the loop "
+                "returns the CCSDS modular checksum (32-bit wrapping sum of big-endian words of the zero-padded content) of "
+                "the concatenation (C14_chunking), whatever the chunk sizes; identical content gives identical values "
+                "(C14_agree); any single-byte change changes the value (C14_single_byte); Null is 0. The model is tied to "
+                "filestore.rs by running the real checksum() on a Read+Seek that returns prescribed short reads."),
+    level_note=("Trusted: Lean kernel; u32::from_be_bytes modelled as the big-endian value; BufReader::fill_buf modelled as "
+                "'returns what one read() call returns, at most 8192 bytes, empty at EOF'; io errors not modelled."),
+    rule=("cksum engine: all lengths 0..70 (thorough 0..300) x 18 chunk schedules (1..9 bytes, 8191, 8193, mixed) x 3 contents, random literal "
+          "data with zero runs and cancelling word pairs under random schedules, plus single-byte mutations, lengths straddling "
+          "8192/16384, Null type. Non-trivial = checksum != 0."),
+    assumptions=["the reader returns each byte of the file exactly once, in order, after rewind()"],
+    unproved=[],
+)
